@@ -668,10 +668,18 @@ class ScaleMeanStddevBlocks(_ScaleContract):
         cnt = spec.count_blocks(B, env, env.w)
         # comparable counts: differences in the *other* direction are NaN (callee contract)
         smname = "rows_scale_mean" if cfg["o"] == "rows" else "columns_scale_mean"
+        # modular cut: the scale means are whatever _ScaleMean delivers (its own contract
+        # states they are the respondent-level means); here they are opaque vectors
+        n0 = env.R if cfg["o"] == "rows" else env.C
+        n1 = env.rows.S if cfg["o"] == "rows" else env.cols.S
+        self._means = [B.tensor("scale_mean0", (n0,), maybe_nan=True), B.tensor("scale_mean1", (n1,), maybe_nan=True)]
         return {
             ccname: blocks_stub(B, ccname, self._comparable(B, env, cfg)),
-            smname: blocks_stub(B, smname, spec.scale_blocks(B, env, env.w, values, cfg["o"], "mean")),
+            smname: blocks_stub(B, smname, self._means),
         }
+
+    def expected(self, B, env, values, cfg):
+        return spec.scale_blocks(B, env, env.w, values, cfg["o"], "sd", means=self._means)
 
     def _comparable(self, B, env, cfg):
         from .matrix_subtotals_c import sum_blocks_spec
@@ -804,3 +812,135 @@ class SmoothedMeasures(Contract):
 
 
 REGISTRY.append(SmoothedMeasures())
+
+
+# ---- C13 pairwise t statistics and p-values ---------------------------------------------------
+class PairwiseTstats(Contract):
+    """_PairwiseSigTstats.blocks: every cell compares its own column with the selected column
+    a (a body column, or -- negative index -- a subtotal column) of the same row block, with
+    n the unweighted column base or the effective base (sum w)^2 / sum w^2 when squared
+    weights are supplied."""
+
+    name = MOD + ":_PairwiseSigTstats.blocks"
+    props = ("C13",)
+
+    def configs(self):
+        return [dict(sq=s, neg=n) for s in (False, True) for n in (False, True)]
+
+    def size_space(self, cfg):
+        return {"R": [1, 2], "C": [1, 2], "SR": [0, 1], "SC": [0, 1, 2], "a": [0, 1, -1, -2]}
+
+    def state(self, B, cfg):
+        R, C, SR, SC = B.size("R", lo=1), B.size("C", lo=1), B.size("SR"), B.size("SC", lo=1 if cfg["neg"] else 0)
+        shapes = [[(R, C), (R, SC)], [(SR, C), (SR, SC)]]
+
+        def blocks(tag, **kw):
+            return [[B.tensor("%s%d%d" % (tag, a, b), shapes[a][b], **kw) for b in (0, 1)] for a in (0, 1)]
+
+        P = blocks("P", maybe_nan=True)
+        U, W, Q = blocks("U", nonneg=True, maybe_nan=True), blocks("W", nonneg=True, maybe_nan=True), blocks("Q", nonneg=True, maybe_nan=True)
+        a = B.integer("a", -SC, 0) if cfg["neg"] else B.integer("a", 0, C)
+        som = dict(
+            column_proportions=blocks_stub(B, "column_proportions", P),
+            columns_squared_base=B.stub("columns_squared_base", is_defined=cfg["sq"]),
+            column_weighted_bases=blocks_stub(B, "column_weighted_bases", W),
+            column_squared_bases=blocks_stub(B, "column_squared_bases", Q),
+            column_unweighted_bases=blocks_stub(B, "column_unweighted_bases", U),
+        )
+
+        def N(a_, b_, x, y):
+            if cfg["sq"]:
+                w = B.rd(W[a_][b_], x, y)
+                return w * w / B.rd(Q[a_][b_], x, y)
+            return B.rd(U[a_][b_], x, y)
+
+        return R, C, SR, SC, shapes, P, N, a, som
+
+    def run(self, B, cfg):
+        R, C, SR, SC, shapes, P, N, a, som = self.state(B, cfg)
+        dims = (B.stub("rows"), B.stub("cols"))
+        obj = B.new("%s:_PairwiseSigTstats" % MOD, dims, B.stub("second_order_measures", **som), B.stub("cube_measures"), a)
+        blocks = obj.blocks
+        refb = 1 if cfg["neg"] else 0
+        ra = (a + SC) if cfg["neg"] else a
+        for a_ in (0, 1):
+            for b_ in (0, 1):
+                def cell(x, y, a_=a_, b_=b_):
+                    return spec.tstat_cell(B, B.rd(P[a_][b_], x, y), N(a_, b_, x, y), B.rd(P[a_][refb], x, ra), N(a_, refb, x, ra))
+
+                B.eq_tensor("blocks[%d][%d]" % (a_, b_), blocks[a_][b_], B.spec_tensor(shapes[a_][b_], cell))
+        # column against itself: t == 0 (or NaN when the variance term vanishes)
+        if not cfg["neg"]:
+            blk = blocks[0][0]
+            B.all_cells("self-comparison", (R,), lambda x: B.bor(B.isnan(B.rd(blk, x, a)), B.feq(B.rd(blk, x, a), 0)))
+
+    def assumptions(self):
+        return ["the radicand is taken in absolute value (only differs from the statement for subtotal-difference cells)"]
+
+
+REGISTRY.append(PairwiseTstats())
+
+
+class PairwisePvals(PairwiseTstats):
+    """_PairwiseSigPvals.blocks: two-sided Student-t p-value with n_a + n_b - 2 degrees of
+    freedom, in [0, 1]; 1 for the selected column against itself."""
+
+    name = MOD + ":_PairwiseSigPvals.blocks"
+
+    def run(self, B, cfg):
+        R, C, SR, SC, shapes, P, N, a, som = self.state(B, cfg)
+        T = [[B.tensor("T%d%d" % (a_, b_), shapes[a_][b_], maybe_nan=True) for b_ in (0, 1)] for a_ in (0, 1)]
+        som["pairwise_t_stats"] = lambda col_idx: blocks_stub(B, "pairwise_t_stats", T, _col=col_idx)
+        dims = (B.stub("rows"), B.stub("cols"))
+        obj = B.new("%s:_PairwiseSigPvals" % MOD, dims, B.stub("second_order_measures", **som), B.stub("cube_measures"), a)
+        blocks = obj.blocks
+        refb = 1 if cfg["neg"] else 0
+        ra = (a + SC) if cfg["neg"] else a
+        for a_ in (0, 1):
+            for b_ in (0, 1):
+                def cell(x, y, a_=a_, b_=b_):
+                    df = N(a_, b_, x, y) + N(a_, refb, x, ra) - 2
+                    return 2 * (1 - B.Tcdf(abs(B.rd(T[a_][b_], x, y)), df))
+
+                exp = B.spec_tensor(shapes[a_][b_], cell)
+                B.eq_tensor("blocks[%d][%d]" % (a_, b_), blocks[a_][b_], exp)
+                blk = blocks[a_][b_]
+                B.all_cells(
+                    "p-in[0,1][%d][%d]" % (a_, b_), shapes[a_][b_],
+                    lambda x, y, blk=blk: B.bor(B.isnan(B.rd(blk, x, y)), B.band(B.fle(0, B.rd(blk, x, y)), B.fle(B.rd(blk, x, y), 1))),
+                )
+
+    def assumptions(self):
+        return ["A-CDF: scipy.stats.t.cdf(x, df) in [0,1], = 1/2 at 0, symmetric, NaN-propagating, NaN for df <= 0"]
+
+
+REGISTRY.append(PairwisePvals())
+
+
+class PairwiseLemmas(Contract):
+    """C13 lemmas over the statement's formula: t(a,b) == -t(b,a); p(a,b) == p(b,a);
+    t(a,a) == 0; p(a,a) == 1 >= alpha so a column is never in its own index set"""
+
+    name = MOD + ":lemma.pairwise-antisymmetry"
+    props = ("C13",)
+
+    def run(self, B, cfg):
+        pa, pb = B.real("pa"), B.real("pb")
+        na, nb = B.real("na", nonneg=True), B.real("nb", nonneg=True)
+        alpha = B.real("alpha")
+        tab = spec.tstat_cell(B, pb, nb, pa, na)
+        tba = spec.tstat_cell(B, pa, na, pb, nb)
+        B.check("t-antisymmetric", B.bor(B.isnan(tab), B.feq(tab, -tba)))
+        B.check("t-nan-symmetric", B.isnan(tab) == B.isnan(tba))
+        df = na + nb - 2
+        p_ab = 2 * (1 - B.Tcdf(abs(tab), df))
+        p_ba = 2 * (1 - B.Tcdf(abs(tba), df))
+        B.check("p-symmetric", B.bor(B.isnan(p_ab), B.feq(p_ab, p_ba)))
+        taa = spec.tstat_cell(B, pa, na, pa, na)
+        B.check("t(a,a)==0-or-NaN", B.bor(B.isnan(taa), B.feq(taa, 0)))
+        p_aa = 2 * (1 - B.Tcdf(abs(taa), na + na - 2))
+        B.check("p(a,a)==1-or-NaN", B.bor(B.isnan(p_aa), B.feq(p_aa, 1)))
+        B.check("self-never-significant", B.bor(B.bnot(B.band(alpha > 0, alpha < 1)), B.isnan(p_aa), B.bnot(p_aa < alpha)))
+
+
+REGISTRY.append(PairwiseLemmas())
